@@ -46,6 +46,9 @@ type BindInput struct {
 	// SubOwnPfx: the submodule says belongs-to a { prefix self; } and imports module b under the
 	// prefix a, which its owner declares for itself: a:t means b's t there
 	SubOwnPfx bool `json:"submodule_binds_owner_prefix,omitempty"`
+	// Pfx: the prefixes of the whole program spelled by another scheme (ir.Reprefix): dotted, names
+	// of other loaded modules, one prefix declared by all modules
+	Pfx int `json:"prefix_scheme,omitempty"`
 }
 
 // bindWorld builds the program: typedef t at the given scopes, a reference leaf at each given site.
@@ -108,7 +111,7 @@ func bindWorld(in BindInput) (*ir.World, map[string][]string) {
 		"top": {"r_top"}, "container": {"cn", "r_cont"}, "list": {"cn", "li", "r_list"}, "grouping": {"ug", "r_g"}, "nested-grouping": {"ug", "gic", "r_gi"},
 		"input": {"r", "input", "r_in"}, "output": {"r", "output", "r_out"}, "notification": {"n", "r_n"}, "submodule": {"r_sub"}, "submodule-container": {"sc", "r_subc"},
 	}
-	return ir.NewWorld(a, as, b, bs, c), where
+	return ir.Reprefix(ir.NewWorld(a, as, b, bs, c), in.Pfx), where
 }
 
 func subsets(k int) [][]string {
@@ -484,7 +487,7 @@ func shards(tier string) []string {
 }
 
 func run(c *core.Ctx) {
-	c.Res.Bound = "bind: typedef t at every subset of <= 3 (thorough 4) of 11 scopes x 5 spellings (bare, own prefix, foreign prefix, unknown prefix, prefix of a module without t) x 10 reference sites (all sites in one program when all resolve, one program per site otherwise), 4 prefix regimes (the submodule importing b under the prefix its owner declares for itself, with a belongs-to prefix of its own; same prefixes in module and submodule; the submodule calls b by the prefix its owner gives c; the same with c defining t too, so one prefix resolves to two modules within one program), 2 load orders; chain: 3-level chains, 2^9 set/omit patterns of units/default/pattern x 4 leaf additions for strings, 2^6 for enum, bits, leafref, decimal64, union, identityref bases; scale: typedef chains and cycles of every length 1..70, 127..129, 255..257, names of every length 4..300 bytes; same-name: 2 programs whose chains pass through different typedefs of one name (across imports, by shadowing), 4 load orders, 12 fresh sets each; union: every ordered pair and triple of 26 member types (near-equal enums, ranges, typedefs of the same name in two modules, bits, identityrefs, leafrefs, decimal64s, a nested union) read directly, through a typedef chain, in a leaf-list and through a grouping, 2 load orders; errors: 22 unknown/unresolvable/cyclic references, in a module and in a submodule, processed twice"
+	c.Res.Bound = "bind: typedef t at every subset of <= 3 (thorough 4) of 11 scopes x 5 spellings (bare, own prefix, foreign prefix, unknown prefix, prefix of a module without t) x 10 reference sites (all sites in one program when all resolve, one program per site otherwise), 4 prefix regimes and the plain program under 3 other prefix spellings - dotted prefixes, prefixes that are the names of other loaded modules, one prefix declared by all modules - (the submodule importing b under the prefix its owner declares for itself, with a belongs-to prefix of its own; same prefixes in module and submodule; the submodule calls b by the prefix its owner gives c; the same with c defining t too, so one prefix resolves to two modules within one program), 2 load orders; chain: 3-level chains, 2^9 set/omit patterns of units/default/pattern x 4 leaf additions for strings, 2^6 for enum, bits, leafref, decimal64, union, identityref bases; scale: typedef chains and cycles of every length 1..70, 127..129, 255..257, names of every length 4..300 bytes; same-name: 2 programs whose chains pass through different typedefs of one name (across imports, by shadowing), 4 load orders, 12 fresh sets each; union: every ordered pair and triple of 26 member types (near-equal enums, ranges, typedefs of the same name in two modules, bits, identityrefs, leafrefs, decimal64s, a nested union) read directly, through a typedef chain, in a leaf-list and through a grouping, 2 load orders; errors: 22 unknown/unresolvable/cyclic references, in a module and in a submodule, processed twice"
 	report := func(caseNo int64, in Input, f *fail) {
 		c.Outcome("FAIL:" + f.fp)
 		c.Fail(caseNo, nil, f.fp, in, f.exp, f.obs)
@@ -512,8 +515,16 @@ func run(c *core.Ctx) {
 					c.Outcome("excluded:t-declared-twice-in-one-module-namespace")
 					continue
 				}
-				for regime := 0; regime < 4; regime++ {
+				for regime := 0; regime < 4+ir.PrefixSchemes-1; regime++ {
 					alias, cHasT, subOwn := regime == 1 || regime == 2, regime == 2, regime == 3
+					pfx := 0
+					if regime >= 4 {
+						// the plain program with its prefixes respelled; quick takes the schemes in turn
+						pfx = regime - 3
+						if c.Tier != "thorough" && pfx != 1+i%(ir.PrefixSchemes-1) {
+							continue
+						}
+					}
 					if subOwn && sp != "a:t" && sp != "t" {
 						continue
 					}
@@ -524,7 +535,7 @@ func run(c *core.Ctx) {
 						continue
 					}
 					// does every site resolve?
-					all := BindInput{Decl: decl, Spelling: sp, Sites: sites, SubAlias: alias, CHasT: cHasT, SubOwnPfx: subOwn}
+					all := BindInput{Decl: decl, Spelling: sp, Sites: sites, SubAlias: alias, CHasT: cHasT, SubOwnPfx: subOwn, Pfx: pfx}
 					w, _ := bindWorld(all)
 					w.Build()
 					var progs []BindInput
@@ -532,7 +543,7 @@ func run(c *core.Ctx) {
 						progs = []BindInput{all}
 					} else {
 						for _, s := range sites {
-							progs = append(progs, BindInput{Decl: decl, Spelling: sp, Sites: []string{s}, SubAlias: alias, CHasT: cHasT, SubOwnPfx: subOwn})
+							progs = append(progs, BindInput{Decl: decl, Spelling: sp, Sites: []string{s}, SubAlias: alias, CHasT: cHasT, SubOwnPfx: subOwn, Pfx: pfx})
 						}
 					}
 					for _, p := range progs {
